@@ -491,6 +491,12 @@ func (fr *Frame) builtin(st *State, b *ssa.Builtin, c *ssa.CallCommon, args []Va
 	case "append":
 		return []Val{fr.appendOp(st, c, args, pos)}
 	case "close":
+		if _, ok := u.P.CS.GhostMaps["chanClosed"]; ok {
+			// closing a closed channel panics: the channel must be known to be open (ghost chanClosed)
+			u.setCompSort("GM_chanClosed", "(Array Ref Bool)")
+			fr.safe(st, "close", pos, "close of a channel that is open (not nil, not closed before)", and(not(eq(args[0].T, "null")), not(sel(u.get(st, "GM_chanClosed"), args[0].T))))
+			u.set(st, "GM_chanClosed", store(u.get(st, "GM_chanClosed"), args[0].T, "true"))
+		}
 		u.emitEvent(st, "Close", []Val{args[0]})
 		return nil
 	case "delete":
